@@ -219,7 +219,10 @@ func c04Pick(rng *rand.Rand, scale int) int64 {
 }
 
 func c04MaxOf(rng *rand.Rand, w int64) int64 {
-	switch rng.IntN(3) {
+	switch rng.IntN(4) {
+	case 3:
+		// a maximum below the initial window (nothing in Config forbids it): the window must simply never grow
+		return max(1, w-rng.Int64N(w))
 	case 0:
 		return w
 	case 1:
@@ -554,7 +557,7 @@ func (r *c04Run) wuStream(i int) {
 		return
 	}
 	w := o - consumed
-	if w > st.maxW {
+	if w > max(st.maxW, st.initW) {
 		r.fail("C04|fc|stream-limit-above-consumed-plus-window", "stream %d: GetWindowUpdate()=%d = consumed %d + %d, maximum window %d", i, o, consumed, w, st.maxW)
 		return
 	}
@@ -581,7 +584,7 @@ func (r *c04Run) wuConn() {
 		return
 	}
 	w := o - consumed
-	if w > c04bc(r.cfg.ConnMaxW) {
+	if w > c04bc(max(r.cfg.ConnMaxW, r.cfg.ConnW)) {
 		r.fail("C04|fc|conn-limit-above-consumed-plus-window", "connection: GetWindowUpdate()=%d = consumed %d + %d, maximum window %d", o, consumed, w, r.cfg.ConnMaxW)
 		return
 	}
@@ -856,7 +859,7 @@ func c04Model(initW, maxW int64) porcupine.Model {
 				return true, s
 			case c04KWU:
 				w := out.O - s.Read
-				if out.O < s.Adv || w < s.Ws || w > maxW {
+				if out.O < s.Adv || w < s.Ws || w > max(maxW, initW) {
 					return false, s
 				}
 				s.Adv, s.Ws = out.O, w
